@@ -27,6 +27,14 @@ int main(int argc, char** argv) {
     TimePeriod n = p; time_period_mutation::negate(n);
     if (n.hour() != p.hour() || n.minute() != p.minute() || n.second() != p.second() || n.sign() != -p.sign()) bad("negate-fields");
     if (n.toSeconds() != -s) bad("negate-value");
+    // ordering must follow the signed length for values reached by negation too (a negated zero period has sign -1, length 0)
+    for (int32_t o : {s, -s, -s - 1, -s + 1}) {
+      if (o < -921599 || o > 921599) continue;
+      TimePeriod q(o); int want = -s < o ? -1 : (-s > o ? 1 : 0);
+      if (n.compareTo(q) != want || q.compareTo(n) != -want) bad("compareTo-negated");
+      c.add("period_comparisons");
+    }
+    { TimePeriod n2 = n; if (n.compareTo(n2) != 0) bad("compareTo-negated-self"); }
     time_period_mutation::negate(n); if (!(n == p)) bad("negate-involution");
     c.add("period_seconds");
   }
